@@ -190,8 +190,8 @@ def gen_folding():
         for u in ["-", "~", "+"]:
             out.append(P(d, "r = %s%s;" % (u, x), ("foldu", u, x)))
             out.append(P(d, "r = a + %s%s;" % (u, x), ("foldu+a", u, x)))
-        for dead in ["a", "RsV", "siV", "clz32(RsV)", "(a + 1)", "PuN", "sizeof(a)", "mem_load_u8(RsV)"]:
-            for live in ["a", "RsV", "siV", "clz32(RsV)"]:
+        for dead in ["a", "RsV", "siV", "clz32(RsV)", "(a + 1)", "PuN", "sizeof(a)", "mem_load_u8(RsV)", "a++", "a--", "RxV++", "({ r = a; r + 1; })", "fbrev(a++)", "(a = 3)", "(a++ + clz32(RsV))"]:
+            for live in ["a", "RsV", "siV", "clz32(RsV)", "a++"]:
                 out.append(P(d, "r = %s ? %s : %s;" % (x, dead, live), ("cfold", x, dead, live)))
                 out.append(P(d, "r = %s ? %s : %s;" % (x, live, dead), ("cfold2", x, live, dead)))
                 out.append(P(d, "r = %s; r = %s ? %s : %s; RdV = %s;" % (dead, x, dead, live, dead), ("cfold3", x, dead, live)))
@@ -322,18 +322,55 @@ def unused_pure_statement_leak(src, msg=""):
     return True
 
 
+def dead_arm_ids(src):
+    """Identifiers that occur in the dead arm of a ?: whose condition is a literal; None if there is none."""
+    from vf import cparse
+    from vf.deviations import walk
+
+    try:
+        ast = cparse.parse_behaviour(src)
+    except cparse.CSyntaxError:
+        return None
+    ids = None
+    for n in walk(ast):
+        if isinstance(n, tuple) and len(n) == 4 and n[0] == "cond":
+            c = cparse.strip_paren(n[1])
+            if c[0] != "num":
+                continue
+            dead = n[3] if c[1] else n[2]
+            ids = ids if ids is not None else set()
+            for m in walk(dead):
+                if isinstance(m, tuple) and len(m) == 2 and m[0] == "id":
+                    ids.add(m[1])
+    return ids
+
+
+def const_cond_dead_operand(src, msg=""):
+    """KF-const-cond-dead-arm on the linearity column: the operand named by the message has to occur in a dead arm
+    (register / immediate pures are named after their operand; computed pures cannot be traced by name)."""
+    if not has_const_cond(src):
+        return False
+    m = re.search(r"pure (\w+) is (?:initialised|consumed)", msg)
+    if m and re.match(r"^[A-Z][a-z]{1,2}$", m.group(1)):
+        ids = dead_arm_ids(src)
+        if ids is None:
+            return True  # the reference parser does not see the ?: (folded operand inside a macro argument)
+        return any(i in (m.group(1) + "V", m.group(1) + "N") for i in ids)
+    return True
+
+
 STATIC_FINDINGS = [
     ("KF-const-cond-dead-arm", "sorts", r"identifier \w+ does not hold a pure|local \w+ is read but no path ever sets it", has_const_cond),
     ("KF-const-cond-dead-arm", "wellformed", r"identifier '\w+' is not declared before use", has_const_cond),
     ("KF-rw-operand-read-leak", "linearity", r"pure [A-Z][yz]{1,2}\w* is initialised but never used", lambda src: re.search(r"\b[A-Z][yz]{1,2}V\s*=[^=]", src) is not None),
-    ("KF-const-cond-dead-arm", "linearity", r"is initialised but never used \(leak\)|is consumed 2 times without DUP", has_const_cond),
+    ("KF-const-cond-dead-arm", "linearity", r"pure \w+ is initialised but never used \(leak\)|pure \w+ is consumed 2 times without DUP", const_cond_dead_operand),
     ("KF-unused-value-statement-leak", "linearity", r"pure \w+ is initialised but never used \(leak\)", unused_pure_statement_leak),
 ]
 
 
 def attribute(col, msg, src):
     for fid, c, rx, pred in STATIC_FINDINGS:
-        if c == col and re.search(rx, msg) and (pred(src, msg) if pred is unused_pure_statement_leak else pred(src)):
+        if c == col and re.search(rx, msg) and (pred(src, msg) if pred in (unused_pure_statement_leak, const_cond_dead_operand) else pred(src)):
             return fid
     return None
 
